@@ -1,6 +1,8 @@
 """What is claimed, at which level, and what is not (source of MANIFEST.json)."""
 
 ENGINES = [
+    {"name": "llvm2smt", "path": "llvm2smt/", "serves_properties": ["C15"],
+     "kind_free_text": "clang -O1 -emit-llvm of the real lib-rt sources, parsed and translated path by path to SMT (bit-vector or integer encoding) with UB obligations"},
     {"name": "frames", "path": "frames/", "serves_properties": ["C08", "C09", "C10"],
      "kind_free_text": "reads / effects frame conditions decided by a syntactic scan of the real ASTs (over-approximation of reads)"},
     {"name": "pyvc", "path": "pyvc/", "serves_properties": ["C12", "C13", "C14", "C16", "C20"],
@@ -46,6 +48,12 @@ CLAIMED["C08"] = dict(
     level_note="The lattice laws themselves (reflexivity, transitivity, join/meet bounds, union simplification) are NOT decided: they need the semantics of ~6 kLoC of mutually recursive visitors. subtype_context.options is read but not part of the key (listed assumption).",
     technique="contract-based verification: frame condition checked by computation over the real AST")
 
+CLAIMED["C15"] = dict(
+    engine="llvm2smt", category="proof", design_ref="DESIGN.md section 5 C15",
+    text="For the C fast paths of every tagged-int operation in CPy.h (Add, Subtract, Multiply, FloorDivide, Remainder, And, Or, Xor, Rshift, Lshift, Negate, Invert, six comparisons, the short/long and overflow predicates) and the fixed-width CPyInt{64,32,16}_Divide/Remainder of int_ops.c: on a fast-path return both operands are short, the result is short and its value equals Python's operator over the mathematical integers (never a wrapped value); otherwise the original operands are delegated to the slow path; fixed-width helpers return Python floor division / modulo and raise ZeroDivisionError / OverflowError exactly when specified; no instruction with undefined behaviour is reachable. Loop-free code over the full 64-bit domains: a complete proof for all 2^128 operand pairs.",
+    level_note="What is verified is clang 14's -O1 LLVM IR of the real sources (recompiled on every run), not the C text and not the gcc -O3 binary mypyc ships. Trusted: clang front end / -O1 mid-end, z3, slow paths (CPyTagged_*_ and CPython PyLong). mul/sdiv/srem functions use an integer encoding with explicit wrap-around and truncated-division axioms. Not decided: IR that mypyc generates for ints (lower/int_ops.py, ll_builder fixed_width_int_op, coerce range checks), floats (float_ops.c, libm), u8 wrap-around in generated C, CPyTagged_From*/As* conversions with loops.",
+    technique="contract-based deductive verification of C: VC generation from clang's LLVM IR of the real sources, SMT discharge (z3 bit-vectors / integers)")
+
 NOT_APPLICABLE = {
     "C01": "soundness of the whole checker against CPython's dynamic semantics: no per-function contract expresses it (DESIGN.md 5 C01)",
     "C05": "compiler correctness of mypyc end to end: a simulation proof, not a function contract (DESIGN.md 5 C05); the numeric leaf is C15",
@@ -58,7 +66,6 @@ NOT_APPLICABLE = {
     "C07": "not yet built in this round",
     "C10": "not yet built in this round",
     "C11": "not yet built in this round",
-    "C15": "not yet built in this round",
     "C18": "not yet built in this round",
     "C20": "not yet built in this round",
 }
